@@ -51,7 +51,7 @@ Qed.
 Definition opp_inv (opp : kernel) (c : opp_cache) : Prop := BInv (get_opposite_color opp) c.
 
 Lemma swap_m_spec : forall opp c a, opp_inv opp c ->
-  fst (swap_m opp c a) = transform opp (fun _ => None) TSwap a /\ opp_inv opp (snd (swap_m opp c a)).
+  fst (swap_m opp c a) = transform opp (fun _ _ _ => None) TSwap a /\ opp_inv opp (snd (swap_m opp c a)).
 Proof.
   intros opp c a Hc. unfold swap_m, get_opposite_color_m. cbn [transform].
   destruct (bounded_get_spec opp_key_eqb (get_opposite_color opp) opp_key_sound MEMO_SIZE c (a_color a) Hc) as [A B].
@@ -64,7 +64,7 @@ Proof.
 Qed.
 
 Theorem memoized_swap_transparent : forall opp l c, opp_inv opp c ->
-  swap_history opp c l = map (transform opp (fun _ => None) TSwap) l.
+  swap_history opp c l = map (transform opp (fun _ _ _ => None) TSwap) l.
 Proof.
   intros opp. induction l as [|a r IH]; intros c Hc; cbn [swap_history map]; [reflexivity|].
   destruct (swap_m_spec opp c a Hc) as [A B]. destruct (swap_m opp c a) as [x c'].
@@ -72,5 +72,5 @@ Proof.
 Qed.
 
 Corollary memoized_swap_transparent_fresh : forall opp l,
-  swap_history opp [] l = map (transform opp (fun _ => None) TSwap) l.
+  swap_history opp [] l = map (transform opp (fun _ _ _ => None) TSwap) l.
 Proof. intros. apply memoized_swap_transparent. intros k v []. Qed.
